@@ -18,7 +18,7 @@ use std::cell::RefCell;
 use std::collections::HashMap;
 use std::sync::Arc;
 
-pub const SIGMA_ID: &[char] = &['a', '"', '`', '\'', '\\', ' ', '.', ';', '-', '[', ']', '$', '?', 'é', '😀'];
+pub const SIGMA_ID: &[char] = &['a', '"', '`', '\'', '\\', ' ', '.', ';', '-', '[', ']', '$', '?', '*', 'é', '😀'];
 const MARK: &str = "m4rk3r";
 
 macro_rules! qb {
